@@ -89,6 +89,31 @@ CHECKS = {
    "Register/stack copies made by the compiler are invisible to allocator- or Miri-level observation.", "DESIGN.md 4 C20"),
 }
 
+
+# lanes added after the first build (DESIGN.md sections 8 and 11): appended to the level text of each check
+EXT = {
+ "C01": "Also through the real binary: round trips onto fresh / longer existing output paths and pipes, self-addressed files, near-twin key names, special plaintext contents, every given/not-given combination of key_encrypt's optional arguments, an ambient decoy environment (KESTREL_KEYRING, KESTREL_NEW_PASSWORD, non-UTF-8 variables, stale sibling files) around every CLI run.",
+ "C02": "Also through the real binary: near-miss, white-space-edged, very long (to 128 KiB) and non-UTF-8 environment passwords (refused or byte-exact), passwords typed at a pseudo-terminal, round trips onto existing longer output paths.",
+ "C03": "Also through the real binary in both modes: the acceptance model on files and on streams whose added bytes arrive late (stdin, /dev/stdin, a named pipe as FILE), rearrangements combined with counter rewrites, histories with an interrupted earlier run, special plaintext contents.",
+ "C04": "Also through the real binary: every corrupted / truncated case onto an absent path, a longer existing file and a symbolic link to one; closed, slow non-blocking and no-controlling-terminal destinations.",
+ "C05": "Also: the forger's substitutes for a refused Diffie-Hellman (zeros, empty string, other lengths, the point itself); through the binary: near-twin names, -k vs environment keyring, two entries with one name, keyrings of 3..1000 entries, decoy entries whose key text is a near twin of the sender's.",
+ "C06": "Also: non-canonical public-key encodings (bit 255, u >= p), sinks of every granularity incl. natively vectored ones; through the binary: tool <-> specification in both directions with white-space-edged passwords, short-chunk files, extreme shapes (empty plaintext, one-byte records) into every sink, the repository fixtures onto existing paths.",
+ "C07": "Also: 30 000-draw single-thread histories, draws of lengths that are not multiples of 32, release-profile child lane, same-password change-pass histories through the binary.",
+ "C08": "Also: one-half-only ephemeral arguments, single-thread histories of many senders; through the binary: existing longer output paths holding identity material, no-controlling-terminal wiring (prompt text must not reach the file).",
+ "C09": "Also through the real binary: structured argv with hostile path strings and symlink shapes (CPU-time hang verdict), non-UTF-8 environments, almost-well-formed key texts in every role, unusual process states (removed cwd, closed descriptors, descriptor / stack / memory / CPU limits, umask), raw key material of every length.",
+ "C10": "Also: natively vectored sinks, the flush invariant (at Ok every accepted byte precedes a successful flush), files chunked by another conforming implementation; through the binary: /dev/full, closed pipes, OS short writes under a file-size limit.",
+ "C11": "Also: reads of thousands of distinct sizes, hostile tails after a complete / unterminated file (memory independent of what follows); through the binary: input offset while stdout is stalled (/proc fdinfo) and output while stdin trickles in (settled read(0) states) - state observations, no timing verdicts - and /dev/stdin as FILE.",
+ "C12": "Also: files named like command words, FIFO / /dev/stdout / symlink wirings, closed and full sinks for every command, keyrings beyond 1 MiB, a damaged unrelated keyring entry at every position (refused before any output, or truthful).",
+ "C13": "Also: five prior states (absent, short, 400 kB, dangling symbolic link, link to a file) with a whole-directory snapshot (names, types, link targets, hashes, inodes, stale siblings), long / multi-byte output names, later-chunk failures far into 17 MiB files and in short-chunk files, generation under a file-size limit, 'may succeed' causes.",
+ "C14": "Also: keyrings over 8 KiB and padded across 128 KiB / 1 MiB / 2 MiB, keyrings behind symbolic links, invalid names inside histories, near-twin names each used as sender and recipient, generations typed at a pseudo-terminal, write failures.",
+ "C15": "Also through the real binary: white-space-edged, near-miss and very long passwords in every command that takes a locked key, keyring-based use under wrong passwords, blobs of other lengths that differ only by zero bytes, key generation with a stray KESTREL_NEW_PASSWORD, unlock retried at a pseudo-terminal.",
+ "C16": "Also: an edge-password family (line terminators, blanks, control and Unicode look-alikes, quotes / escapes / variable references, 63-65 byte lengths) as new and as current password with look-alikes required to fail; non-UTF-8 new passwords; changes typed at a pseudo-terminal with retyped confirmations.",
+ "C17": "Also: whole-section enumeration, boundary names of 1..4-byte characters, about 60 other spellings of one key, tool-written keyring files with stale siblings read back by an independent reader; through the binary: keyrings to 1.2 MiB (thorough 5 MiB) as files and through pipes (one piece and two pieces cut at a section boundary), corrupted checksums in every role, boundary names through key generate.",
+ "C18": "Also: related-call sequences in one thread, through the library and through the C ABI; the in-process C ABI lanes run in a child process so that a call that takes the process down is a verdict.",
+ "C19": "Also: inputs around every power of two up to 4 MiB (thorough 64 MiB), all-zero HKDF salts of every length and call orders in a fresh process, release-profile child lane.",
+ "C20": "Also: overwrite paths (clone_from), whole-block scan for stale copies, PayloadKey at every address alignment, clones dropped by 2-4 threads at a barrier (native) and under Miri's scheduler over many seeds.",
+}
+
 def main():
     props = [json.loads(l) for l in open(os.path.join(ROOT, "properties.jsonl"))]
     hook_commits = subprocess.run(["git", "-C", "/repo", "log", "--format=%H", "--grep=verif-hooks"], capture_output=True, text=True).stdout.split()
@@ -104,7 +129,7 @@ def main():
                 "evidence_file": f"/verif/evidence/{pid}.json",
                 "replay_cmd_template": f"./check {pid} --replay {{path}}",
                 "engine": "kmon",
-                "level_claimed": {"category": cat, "text": text, "design_ref": ref},
+                "level_claimed": {"category": cat, "text": text + " " + EXT.get(pid, ""), "design_ref": ref},
                 "level_note": note,
                 "technique": tech,
             })
